@@ -2,6 +2,7 @@ package abs
 
 import (
 	"fmt"
+	"oryxverif/checker/internal/core"
 	"sort"
 	"strings"
 )
@@ -68,7 +69,7 @@ func DescribeObj(p *Path, o *Obj) string {
 		for _, k := range ks {
 			name := fmt.Sprintf("f%d", k)
 			if st := structOfAny(o.Type); st != nil && k < st.NumFields() {
-				name = st.Field(k).Name()
+				name = core.FieldVarName(st.Field(k))
 			}
 			parts = append(parts, name+": "+Describe(p, o.Fields[k]))
 		}
@@ -94,7 +95,7 @@ func FieldByName(p *Path, o *Obj, name string) (Value, bool) {
 		return nil, false
 	}
 	for i := 0; i < st.NumFields(); i++ {
-		if st.Field(i).Name() == name {
+		if core.FieldVarName(st.Field(i)) == name {
 			return p.E.loadField(p, o, i, st.Field(i).Type()), true
 		}
 	}
